@@ -273,8 +273,8 @@ pub fn run(tier: Tier) -> i32 {
     } else {
         gen::universe_quick()
     };
-    let doc_cap = if th { 200 } else { 60 };
-    let parts: Vec<Stats> = specs.par_iter().map(|sp| check_spec(sp, level.min(1), doc_cap)).collect();
+    let doc_cap = if th { 300 } else { 100 };
+    let parts: Vec<Stats> = specs.par_iter().map(|sp| check_spec(sp, 1, doc_cap)).collect();
     for p in parts {
         rep.stats.merge(p);
     }
